@@ -171,11 +171,45 @@ type oLoc struct {
 }
 
 // OV is the abstract value of an SSA register.
+// CrdSet: coordinate systems a position (or a slice of positions) may be in.
+// Positions exchanged over the API are in the layout of TreeRows(NumLeaves)
+// ("tree"); the map forest stores them in the layout of its TotalRows
+// ("total"). "both" marks a value on a path where TreeRows(NumLeaves) ==
+// TotalRows was established, so the two layouts coincide.
+type CrdSet uint8
+
+const (
+	crdTree  CrdSet = 1
+	crdTotal CrdSet = 2
+	crdBoth  CrdSet = 4
+)
+
+func (c CrdSet) String() string {
+	var xs []string
+	if c&crdTree != 0 {
+		xs = append(xs, "tree")
+	}
+	if c&crdTotal != 0 {
+		xs = append(xs, "total")
+	}
+	if c&crdBoth != 0 {
+		xs = append(xs, "tree=total")
+	}
+	if len(xs) == 0 {
+		return "unknown"
+	}
+	return strings.Join(xs, "|")
+}
+
+// compatible: every possible layout of the value is the needed one.
+func (c CrdSet) compatible(need CrdSet) bool { return c&^(need|crdBoth) == 0 }
+
 type OV struct {
 	Arrs map[*oArr]bool
 	Flds map[int]*OV
 	Locs map[oLoc]bool
 	Fn   *ssa.Function // function constant (comparators)
+	Crd  CrdSet        // scalar positions: layout
 }
 
 func newOV() *OV { return &OV{} }
@@ -183,7 +217,7 @@ func newOV() *OV { return &OV{} }
 func ovArr(a *oArr) *OV { return &OV{Arrs: map[*oArr]bool{a: true}} }
 
 func (v *OV) isEmpty() bool {
-	return v == nil || (len(v.Arrs) == 0 && len(v.Flds) == 0 && len(v.Locs) == 0 && v.Fn == nil)
+	return v == nil || (len(v.Arrs) == 0 && len(v.Flds) == 0 && len(v.Locs) == 0 && v.Fn == nil && v.Crd == 0)
 }
 
 func (v *OV) clone() *OV {
@@ -228,6 +262,10 @@ func (v *OV) join(w *OV) bool {
 	}
 	if v.Fn == nil && w.Fn != nil {
 		v.Fn = w.Fn
+		ch = true
+	}
+	if v.Crd|w.Crd != v.Crd {
+		v.Crd |= w.Crd
 		ch = true
 	}
 	return ch
@@ -301,6 +339,9 @@ func (v *OV) sig(sb *strings.Builder) {
 	if v.Fn != nil {
 		fmt.Fprintf(sb, "|f%p", v.Fn)
 	}
+	if v.Crd != 0 {
+		fmt.Fprintf(sb, "|c%d", v.Crd)
+	}
 	sb.WriteByte('}')
 }
 
@@ -320,15 +361,60 @@ func (v *OV) allArrs(into map[*oArr]bool) {
 // OState is the flow-sensitive part: class of every array, contents of cells.
 type OState struct {
 	cls map[*oArr]ClassSet
+	crd map[*oArr]CrdSet
 	mem map[*oCell]*OV
+	// eq: 1 when TreeRows(NumLeaves) == TotalRows is known to hold on every path
+	// to this point (both layouts coincide), 2 when known to differ, 0 unknown
+	eq uint8
 }
 
-func newOState() *OState { return &OState{cls: map[*oArr]ClassSet{}, mem: map[*oCell]*OV{}} }
+func newOState() *OState {
+	return &OState{cls: map[*oArr]ClassSet{}, crd: map[*oArr]CrdSet{}, mem: map[*oCell]*OV{}}
+}
+
+// crdOf joins the layouts of the arrays v designates.
+func (s *OState) crdOf(v *OV) CrdSet {
+	var c CrdSet
+	if v == nil {
+		return 0
+	}
+	for a := range v.Arrs {
+		c |= s.crd[a]
+	}
+	return c
+}
+
+func (s *OState) setCrd(v *OV, c CrdSet) {
+	if v == nil {
+		return
+	}
+	c = s.normCrd(c)
+	strong := len(v.Arrs) == 1
+	for a := range v.Arrs {
+		if strong {
+			s.crd[a] = c
+		} else {
+			s.crd[a] |= c
+		}
+	}
+}
+
+// normCrd: while the two layouts are known to coincide every layout is "both".
+func (s *OState) normCrd(c CrdSet) CrdSet {
+	if s.eq == 1 && c != 0 {
+		return crdBoth
+	}
+	return c
+}
 
 func (s *OState) clone() *OState {
 	n := newOState()
+	n.eq = s.eq
 	for a, c := range s.cls {
 		n.cls[a] = c.clone()
+	}
+	for a, c := range s.crd {
+		n.crd[a] = c
 	}
 	for c, v := range s.mem {
 		n.mem[c] = v.clone()
@@ -339,6 +425,10 @@ func (s *OState) clone() *OState {
 // join merges t into s; reports change.
 func (s *OState) join(t *OState) bool {
 	ch := false
+	if s.eq != t.eq && s.eq != 0 {
+		s.eq = 0
+		ch = true
+	}
 	for a, c := range t.cls {
 		if s.cls[a] == nil {
 			s.cls[a] = c.clone()
@@ -350,6 +440,12 @@ func (s *OState) join(t *OState) bool {
 				s.cls[a][x] = true
 				ch = true
 			}
+		}
+	}
+	for a, c := range t.crd {
+		if s.crd[a]|c != s.crd[a] {
+			s.crd[a] |= c
+			ch = true
 		}
 	}
 	for c, v := range t.mem {
@@ -440,7 +536,7 @@ func splitLast(path string) (string, int) {
 func (s *OState) sig(sb *strings.Builder, arrs map[*oArr]bool, cells map[*oCell]bool) {
 	var xs []string
 	for a := range arrs {
-		xs = append(xs, fmt.Sprintf("a%d=%s", a.id, s.cls[a].String()))
+		xs = append(xs, fmt.Sprintf("a%d=%s/%d", a.id, s.cls[a].String(), s.crd[a]))
 	}
 	sort.Strings(xs)
 	sb.WriteString(strings.Join(xs, ";"))
@@ -452,6 +548,7 @@ func (s *OState) sig(sb *strings.Builder, arrs map[*oArr]bool, cells map[*oCell]
 	}
 	sort.Strings(cs)
 	sb.WriteString("#" + strings.Join(cs, ";"))
+	fmt.Fprintf(sb, "#eq%d", s.eq)
 }
 
 // ---------------------------------------------------------------------------
@@ -464,6 +561,7 @@ const (
 	oevSink
 	oevUndecided
 	oevIndexPar
+	oevCoord
 )
 
 type oEvent struct {
@@ -476,6 +574,8 @@ type oEvent struct {
 	NameB  string
 	Stack  []string
 	Detail string
+	Need   CrdSet // oevCoord: layout the callee needs
+	Have   CrdSet // oevCoord: layouts the value may be in
 }
 
 type oMemo struct {
@@ -508,6 +608,8 @@ type oInterp struct {
 	missing  map[string]bool
 	fills    map[*ssa.Function]map[ssa.Instruction]ssa.Value // map-fill idiom: store/append -> parallel source slice
 	refine   map[ssa.Instruction]*oRefine                     // last call outcome per call instruction (current context)
+	curEq    uint8                                            // eq flag of the state being stepped
+	geomW    map[*ssa.Function]bool                           // functions that (transitively) write NumLeaves / TotalRows of the map forest
 }
 
 // requiresSorted is the table of functions whose documentation says "MUST be
@@ -563,7 +665,7 @@ func (it *oInterp) site(in ssa.Instruction) string {
 }
 
 func (it *oInterp) event(e *oEvent) {
-	key := fmt.Sprintf("%d/%p/%s/%s/%s", e.Kind, e.In, e.What, e.A.String(), e.B.String())
+	key := fmt.Sprintf("%d/%p/%s/%s/%s/%d/%d", e.Kind, e.In, e.What, e.A.String(), e.B.String(), e.Need, e.Have)
 	if it.evSeen[key] {
 		return
 	}
@@ -681,6 +783,9 @@ func (it *oInterp) analyze(fn *ssa.Function, args []*OV, in *OState, site ssa.In
 			for a, c := range eff.cls {
 				out.cls[a] = c.clone()
 			}
+			for a, c := range eff.crd {
+				out.crd[a] = c
+			}
 			for c, v := range eff.mem {
 				out.mem[c] = v.clone()
 			}
@@ -793,14 +898,26 @@ func (it *oInterp) analyze(fn *ssa.Function, args []*OV, in *OState, site ssa.In
 				rf, okSucc, errSucc = r, okE, erE
 			}
 		}
+		eqSucc, neSucc := it.rowsTest(fn, b)
+		conv := it.loopConversions(fn, b)
 		for _, s := range b.Succs {
 			st := st
+			if len(conv) > 0 && !loopContains(b, s) {
+				st = st.clone()
+				for _, cv := range conv {
+					st.setCrd(it.get(env, cv.arr), cv.to)
+				}
+			}
 			if rf != nil && okSucc != errSucc {
 				if s == okSucc {
 					st = rf.ok
 				} else if s == errSucc {
 					st = rf.err
 				}
+			}
+			if eqSucc != neSucc && (s == eqSucc || s == neSucc) {
+				st = st.clone()
+				it.refineEdge(st, s == eqSucc)
 			}
 			if blockIn[s] == nil {
 				blockIn[s] = st.clone()
@@ -834,6 +951,11 @@ func (it *oInterp) analyze(fn *ssa.Function, args []*OV, in *OState, site ssa.In
 				touched[a] = true
 			}
 		}
+		for a, c := range o.crd {
+			if in.crd[a] != c {
+				touched[a] = true
+			}
+		}
 	}
 	effect := func(o *OState) *OState {
 		if o == nil {
@@ -843,6 +965,9 @@ func (it *oInterp) analyze(fn *ssa.Function, args []*OV, in *OState, site ssa.In
 		for a := range touched {
 			if c := o.cls[a]; c != nil {
 				eff.cls[a] = c.clone()
+			}
+			if c, ok := o.crd[a]; ok {
+				eff.crd[a] = c
 			}
 		}
 		for c, v := range o.mem {
@@ -1010,6 +1135,11 @@ func hasSlicesSeen(t types.Type, seen map[types.Type]bool) bool {
 
 func (it *oInterp) step(fn *ssa.Function, ins ssa.Instruction, env map[ssa.Value]*OV, st *OState, fills map[ssa.Instruction]ssa.Value) {
 	get := func(v ssa.Value) *OV { return it.get(env, v) }
+	it.curEq = st.eq
+	if st.eq != 0 && it.writesGeometry(ins) {
+		st.eq = 0
+		it.curEq = 0
+	}
 	switch x := ins.(type) {
 	case *ssa.Alloc:
 		c := it.cell(it.akey(x, ""), "var "+x.Comment+"@"+it.p.FuncName(fn))
@@ -1100,11 +1230,28 @@ func (it *oInterp) step(fn *ssa.Function, ins ssa.Instruction, env map[ssa.Value
 				setEnv(env, x, st.load(p))
 			}
 		}
+		if x.Op == token.MUL && isUint64(x.Type()) {
+			if ia, ok := x.X.(*ssa.IndexAddr); ok {
+				if c := st.crdOf(get(ia.X)); c != 0 {
+					setEnv(env, x, &OV{Crd: c})
+				}
+			}
+		}
 	case *ssa.Store:
 		ptr := get(x.Addr)
 		if ia, ok := x.Addr.(*ssa.IndexAddr); ok {
 			// element store into an array
 			tgt := get(ia.X)
+			if vc := get(x.Val).Crd; vc != 0 {
+				if it.inPlaceTranslation(x.Val, ia) {
+					// every element is rewritten once: the array changes layout when
+					// the loop is left (applied on the loop's exit edge)
+				} else {
+					for a := range tgt.Arrs {
+						st.crd[a] |= st.normCrd(vc)
+					}
+				}
+			}
 			if src, ok := fills[x]; ok {
 				sv := get(src)
 				same := false
@@ -1160,8 +1307,19 @@ func (it *oInterp) step(fn *ssa.Function, ins ssa.Instruction, env map[ssa.Value
 			}
 		}
 	case *ssa.Phi:
-		for _, e := range x.Edges {
-			setEnv(env, x, get(e))
+		for i, e := range x.Edges {
+			v := get(e)
+			if i < len(x.Block().Preds) {
+				pred := x.Block().Preds[i]
+				if eqS, neS := it.rowsTest(fn, pred); eqS != neS {
+					if x.Block() == eqS {
+						v = it.refineOV(v, st, true)
+					} else if x.Block() == neS {
+						v = it.refineOV(v, st, false)
+					}
+				}
+			}
+			setEnv(env, x, v)
 		}
 	case *ssa.Extract:
 		setEnv(env, x, get(x.Tuple).fld(x.Index))
@@ -1294,8 +1452,13 @@ func (it *oInterp) call(fn *ssa.Function, site ssa.Instruction, cc *ssa.CallComm
 					}
 				}
 			}
+			newcrd := st.crdOf(args[0])
+			if len(args) > 1 {
+				newcrd |= st.crdOf(args[1])
+			}
 			for x := range out.Arrs {
 				st.cls[x] = newcls.clone()
+				st.crd[x] = st.normCrd(newcrd)
 			}
 			return tupleOV(out)
 		case "copy":
@@ -1311,6 +1474,7 @@ func (it *oInterp) call(fn *ssa.Function, site ssa.Instruction, cc *ssa.CallComm
 					}
 					if !same {
 						st.setClass(args[0], st.classOf(args[1]))
+						st.setCrd(args[0], st.crdOf(args[1]))
 					}
 				}
 			}
@@ -1320,6 +1484,26 @@ func (it *oInterp) call(fn *ssa.Function, site ssa.Instruction, cc *ssa.CallComm
 	}
 	sc := cc.StaticCallee()
 	if sc == nil || cc.IsInvoke() {
+		if cc.IsInvoke() {
+			switch {
+			case posKeyedIface(it.p, cc.Value.Type()):
+				switch cc.Method.Name() {
+				case "Get", "Put", "Delete":
+					if len(args) > 0 {
+						it.needCrd(fn, site, "Nodes."+cc.Method.Name()+"#0", crdTotal, args[0].Crd, exprName(cc.Args[0]))
+					}
+				}
+			case hashKeyedIface(it.p, cc.Value.Type()):
+				switch cc.Method.Name() {
+				case "Put":
+					if len(args) > 1 {
+						it.needCrd(fn, site, "CachedLeaves.Put#1", crdTotal, args[1].Crd, exprName(cc.Args[1]))
+					}
+				case "Get":
+					return tupleOV(&OV{Crd: crdTotal})
+				}
+			}
+		}
 		// interface methods / function values: no slice effects modelled; slice
 		// results are unknown
 		return it.unknownResult(site, cc, st)
@@ -1328,6 +1512,56 @@ func (it *oInterp) call(fn *ssa.Function, site ssa.Instruction, cc *ssa.CallComm
 		return it.external(site, cc, sc, args, st)
 	}
 	name := it.calleeName(sc)
+
+	// layout discipline: a position (scalar or slice) handed to a function
+	// together with a classifiable forest height must be in that height's layout
+	var rowsK CrdSet
+	if name != "translatePos" && name != "translatePositions" {
+		for i, a := range cc.Args {
+			if isUint8(a.Type()) {
+				if k := it.rowsKind(a); k != 0 {
+					rowsK = k
+					_ = i
+					break
+				}
+			}
+		}
+	}
+	argCrd := func(i int) CrdSet {
+		v := args[i]
+		if v.Crd != 0 {
+			return v.Crd
+		}
+		if len(v.Arrs) == 0 && len(v.Flds) > 0 && it.p.localNamed(cc.Args[i].Type(), "hashAndPos") {
+			v = v.fld(0)
+		}
+		if isPositionSlice(cc.Args[i].Type()) || it.p.localNamed(cc.Args[i].Type(), "hashAndPos") {
+			return st.crdOf(v)
+		}
+		return 0
+	}
+	if rowsK != 0 {
+		for i := range cc.Args {
+			it.needCrd(fn, site, fmt.Sprintf("%s#%d", name, i), rowsK, argCrd(i), exprName(cc.Args[i]))
+		}
+	}
+	switch name {
+	case "translatePositions", "translatePos":
+		if len(args) == 3 {
+			it.needCrd(fn, site, name+"#0", it.rowsKind(cc.Args[1]), argCrd(0), exprName(cc.Args[0]))
+		}
+	case "(*MapPollard).trimProofPos":
+		if len(args) > 1 {
+			it.needCrd(fn, site, name+"#1", crdTree, argCrd(1), exprName(cc.Args[1]))
+		}
+	case "calculateHashes", "Verify":
+		if len(args) == 3 {
+			it.needCrd(fn, site, name+"#2.Targets", crdTree, st.crdOf(args[2].fld(0)), exprName(cc.Args[2])+".Targets")
+		}
+	}
+	if name == "translatePos" && len(args) == 3 {
+		return tupleOV(&OV{Crd: it.rowsKind(cc.Args[2])})
+	}
 
 	// sorted-input sinks
 	if idxs, ok := requiresSorted[name]; ok {
@@ -1368,6 +1602,11 @@ func (it *oInterp) call(fn *ssa.Function, site ssa.Instruction, cc *ssa.CallComm
 			}
 		}
 		st.cls[a0], st.cls[a1] = c0, c1
+		pc := it.rowsKind(cc.Args[2])
+		if pc == 0 {
+			pc = st.crdOf(args[0])
+		}
+		st.crd[a0], st.crd[a1] = st.normCrd(pc), st.normCrd(pc)
 		return tupleOV(ovArr(a0), ovArr(a1))
 	case "translatePositions":
 		a := it.arr(it.akey(site, ""), "translatePositions@"+posOf(it.p, site))
@@ -1375,11 +1614,16 @@ func (it *oInterp) call(fn *ssa.Function, site ssa.Instruction, cc *ssa.CallComm
 		if len(st.cls[a]) == 0 {
 			st.cls[a] = csOf(OC{ocBuilt, it.site(site)})
 		}
+		st.crd[a] = st.normCrd(it.rowsKind(cc.Args[2]))
 		return tupleOV(ovArr(a))
 	case "deTwin", "subtractSortedSlice", "mergeSortedSlicesFunc", "insertInOrder":
 		a := it.arr(it.akey(site, ""), name+"@"+posOf(it.p, site))
 		cls := csOf(OC{ocSBuilt, it.site(site)})
 		st.cls[a] = cls
+		st.crd[a] = st.normCrd(st.crdOf(args[0]))
+		if name == "mergeSortedSlicesFunc" && len(args) > 1 {
+			st.crd[a] |= st.crdOf(args[1])
+		}
 		out := ovArr(a)
 		if name != "mergeSortedSlicesFunc" {
 			// works in place on its first argument
@@ -1394,6 +1638,10 @@ func (it *oInterp) call(fn *ssa.Function, site ssa.Instruction, cc *ssa.CallComm
 		a0 := it.arr(it.akey(site, ".0"), name+".positions@"+posOf(it.p, site))
 		a1 := it.arr(it.akey(site, ".1"), name+".hashes@"+posOf(it.p, site))
 		st.cls[a0], st.cls[a1] = cls.clone(), cls.clone()
+		st.crd[a0] = st.normCrd(st.crdOf(args[0].fld(0)))
+		if name == "mergeSortedHashAndPos" && len(args) > 1 {
+			st.crd[a0] |= st.crdOf(args[1].fld(0))
+		}
 		o0, o1 := ovArr(a0), ovArr(a1)
 		if name == "subtractSortedHashAndPos" || name == "deTwinHashAndPos" {
 			for x := range args[0].fld(0).Arrs {
@@ -1421,6 +1669,7 @@ func (it *oInterp) call(fn *ssa.Function, site ssa.Instruction, cc *ssa.CallComm
 		a0 := it.arr(it.akey(site, ".0"), name+".positions@"+posOf(it.p, site))
 		a1 := it.arr(it.akey(site, ".1"), name+".hashes@"+posOf(it.p, site))
 		st.cls[a0], st.cls[a1] = cls.clone(), cls.clone()
+		st.crd[a0] = st.normCrd(st.crdOf(args[0].fld(0)))
 		return tupleOV(&OV{Flds: map[int]*OV{0: ovArr(a0), 1: ovArr(a1)}})
 	case "(*MapPollard).trimProofPos":
 		if len(args) > 1 {
@@ -1464,11 +1713,313 @@ func (it *oInterp) call(fn *ssa.Function, site ssa.Instruction, cc *ssa.CallComm
 		if hasSlices(sc.Signature.Results()) {
 			return it.typedShape(sc.Signature.Results(), it.akey(site, ""), name+"@"+posOf(it.p, site), st, OC{ocBuilt, it.site(site)})
 		}
+		// position arithmetic (Parent, sibling, LeftChild, calcPrevPosition, ...):
+		// a uint64 computed from a position stays in that position's layout
+		res := sc.Signature.Results()
+		if res.Len() >= 1 && isUint64(res.At(0).Type()) && len(args) > 0 && args[0].Crd != 0 && isUint64(cc.Args[0].Type()) {
+			c := rowsK
+			if c == 0 {
+				c = args[0].Crd
+			}
+			return tupleOV(&OV{Crd: c})
+		}
 		return nil
 	}
 	ret, out := it.analyze(sc, args, st, site)
 	*st = *out
 	return ret
+}
+
+// writesGeometry: the instruction stores NumLeaves / TotalRows of a map forest,
+// or calls a function that may (the equality of the two layouts established by
+// an earlier test no longer holds afterwards).
+func (it *oInterp) writesGeometry(ins ssa.Instruction) bool {
+	direct := func(in ssa.Instruction) bool {
+		st, ok := in.(*ssa.Store)
+		if !ok {
+			return false
+		}
+		fa, ok := st.Addr.(*ssa.FieldAddr)
+		if !ok || !it.p.localNamed(fa.X.Type(), "MapPollard") {
+			return false
+		}
+		f := fieldName(fa.X.Type(), fa.Field)
+		return f == "NumLeaves" || f == "TotalRows"
+	}
+	if it.geomW == nil {
+		it.geomW = map[*ssa.Function]bool{}
+		for _, f := range it.p.Funcs {
+			for _, b := range f.Blocks {
+				for _, in := range b.Instrs {
+					if direct(in) {
+						it.geomW[f] = true
+					}
+				}
+			}
+		}
+		for changed := true; changed; {
+			changed = false
+			for _, f := range it.p.Funcs {
+				if it.geomW[f] {
+					continue
+				}
+				for _, b := range f.Blocks {
+					for _, in := range b.Instrs {
+						if c, ok := in.(ssa.CallInstruction); ok {
+							if sc := c.Common().StaticCallee(); sc != nil && it.geomW[sc] {
+								it.geomW[f] = true
+								changed = true
+							}
+						}
+					}
+				}
+			}
+		}
+	}
+	if direct(ins) {
+		return true
+	}
+	if c, ok := ins.(ssa.CallInstruction); ok {
+		if sc := c.Common().StaticCallee(); sc != nil && it.geomW[sc] {
+			return true
+		}
+	}
+	return false
+}
+
+// rowsKind classifies a forest-height expression: the map forest's TotalRows
+// field (total layout) or a call of TreeRows (tree layout); 0 when unknown.
+func (it *oInterp) rowsKind(v ssa.Value) CrdSet {
+	return it.rowsKindRec(v, map[ssa.Value]bool{})
+}
+
+func (it *oInterp) rowsKindRec(v ssa.Value, seen map[ssa.Value]bool) CrdSet {
+	v = stripConvert(v)
+	if v == nil || seen[v] {
+		return 0
+	}
+	seen[v] = true
+	switch x := v.(type) {
+	case *ssa.UnOp:
+		if x.Op == token.MUL {
+			if fa, ok := x.X.(*ssa.FieldAddr); ok && fieldName(fa.X.Type(), fa.Field) == "TotalRows" && it.p.localNamed(fa.X.Type(), "MapPollard") {
+				return crdTotal
+			}
+			// local variable assigned once from a classifiable expression
+			if al, ok := x.X.(*ssa.Alloc); ok {
+				var k CrdSet
+				n := 0
+				for _, ref := range *al.Referrers() {
+					if s, ok := ref.(*ssa.Store); ok && s.Addr == al {
+						n++
+						k = it.rowsKindRec(s.Val, seen)
+					}
+				}
+				if n == 1 {
+					return k
+				}
+			}
+		}
+	case *ssa.Field:
+		if fieldName(x.X.Type(), x.Field) == "TotalRows" && it.p.localNamed(x.X.Type(), "MapPollard") {
+			return crdTotal
+		}
+	case *ssa.Call:
+		if sc := x.Common().StaticCallee(); sc != nil && it.p.owns(sc) && it.calleeName(sc) == "TreeRows" {
+			return crdTree
+		}
+	case *ssa.Phi:
+		var k CrdSet
+		for i, e := range x.Edges {
+			ke := it.rowsKindRec(e, seen)
+			if i > 0 && ke != k {
+				return 0
+			}
+			k = ke
+		}
+		return k
+	}
+	return 0
+}
+
+// rowsTest recognises a block ending in a comparison of the tree layout's
+// height with the map forest's TotalRows; it returns the successors on which
+// they are equal / different.
+func (it *oInterp) rowsTest(fn *ssa.Function, b *ssa.BasicBlock) (eq, ne *ssa.BasicBlock) {
+	if len(b.Instrs) == 0 {
+		return nil, nil
+	}
+	iff, ok := b.Instrs[len(b.Instrs)-1].(*ssa.If)
+	if !ok {
+		return nil, nil
+	}
+	bo, ok := iff.Cond.(*ssa.BinOp)
+	if !ok || (bo.Op != token.EQL && bo.Op != token.NEQ) {
+		return nil, nil
+	}
+	kx, ky := it.rowsKind(bo.X), it.rowsKind(bo.Y)
+	if !((kx == crdTree && ky == crdTotal) || (kx == crdTotal && ky == crdTree)) {
+		return nil, nil
+	}
+	if bo.Op == token.EQL {
+		return b.Succs[0], b.Succs[1]
+	}
+	return b.Succs[1], b.Succs[0]
+}
+
+type loopConv struct {
+	arr ssa.Value
+	to  CrdSet
+}
+
+// loopContains: s belongs to the natural loop headed at h.
+func loopContains(h, s *ssa.BasicBlock) bool {
+	if s == h {
+		return true
+	}
+	if !h.Dominates(s) {
+		return false
+	}
+	reach := reachableBlocks([]*ssa.BasicBlock{s})
+	for _, l := range latches(h) {
+		if l == s || reach[l] {
+			return true
+		}
+	}
+	return false
+}
+
+// loopConversions lists the arrays that the loop headed at h rewrites element
+// by element with translatePos(a[i], from, to): on leaving the loop the whole
+// array is in the layout of `to`.
+func (it *oInterp) loopConversions(fn *ssa.Function, h *ssa.BasicBlock) []loopConv {
+	if len(latches(h)) == 0 {
+		return nil
+	}
+	var out []loopConv
+	for _, b := range fn.Blocks {
+		if !loopContains(h, b) || innermostLoopHeader(b) != h {
+			continue
+		}
+		for _, in := range b.Instrs {
+			st, ok := in.(*ssa.Store)
+			if !ok {
+				continue
+			}
+			ia, ok := st.Addr.(*ssa.IndexAddr)
+			if !ok || !it.inPlaceTranslation(st.Val, ia) {
+				continue
+			}
+			c := st.Val.(*ssa.Call)
+			if k := it.rowsKind(c.Common().Args[2]); k != 0 {
+				out = append(out, loopConv{ia.X, k})
+			}
+		}
+	}
+	return out
+}
+
+// eqAlias returns the stand-in for array a on a path where the two layouts
+// are known to coincide.
+func (it *oInterp) eqAlias(a *oArr, st *OState) *oArr {
+	if strings.HasPrefix(a.name, "eq:") {
+		return a
+	}
+	al := it.arr(fmt.Sprintf("eq:%d", a.id), "eq:"+a.name)
+	if st.cls[al] == nil {
+		st.cls[al] = st.cls[a].clone()
+	} else {
+		for c := range st.cls[a] {
+			st.cls[al][c] = true
+		}
+	}
+	if st.crd[a] != 0 {
+		st.crd[al] = crdBoth
+	}
+	return al
+}
+
+// refineOV rewrites a value for an edge of a test TreeRows(NumLeaves) ==
+// TotalRows: on the equal edge the position arrays it designates are replaced
+// by stand-ins whose layout is "both"; on the other edge such stand-ins are
+// impossible and are dropped when something else remains.
+func (it *oInterp) refineOV(v *OV, st *OState, equal bool) *OV {
+	if v == nil {
+		return v
+	}
+	out := newOV()
+	out.Fn = v.Fn
+	out.Crd = v.Crd
+	if equal && out.Crd != 0 {
+		out.Crd = crdBoth
+	} else if !equal && out.Crd&^crdBoth != 0 {
+		out.Crd &^= crdBoth
+	}
+	nonAlias := 0
+	for a := range v.Arrs {
+		if !strings.HasPrefix(a.name, "eq:") {
+			nonAlias++
+		}
+	}
+	for a := range v.Arrs {
+		if out.Arrs == nil {
+			out.Arrs = map[*oArr]bool{}
+		}
+		switch {
+		case equal && st.crd[a] != 0:
+			out.Arrs[it.eqAlias(a, st)] = true
+		case !equal && strings.HasPrefix(a.name, "eq:") && nonAlias > 0:
+			// infeasible on this edge
+		default:
+			out.Arrs[a] = true
+		}
+	}
+	for l := range v.Locs {
+		if out.Locs == nil {
+			out.Locs = map[oLoc]bool{}
+		}
+		out.Locs[l] = true
+	}
+	for i, f := range v.Flds {
+		if out.Flds == nil {
+			out.Flds = map[int]*OV{}
+		}
+		out.Flds[i] = it.refineOV(f, st, equal)
+	}
+	return out
+}
+
+// refineEdge applies the outcome of the test to a state flowing along an edge.
+func (it *oInterp) refineEdge(st *OState, equal bool) {
+	for c, v := range st.mem {
+		st.mem[c] = it.refineOV(v, st, equal)
+	}
+	if equal {
+		st.eq = 1
+		for a, c := range st.crd {
+			if c != 0 {
+				st.crd[a] = crdBoth
+			}
+		}
+	} else {
+		st.eq = 2
+		for a, c := range st.crd {
+			if c&^crdBoth != 0 {
+				st.crd[a] = c &^ crdBoth
+			}
+		}
+	}
+}
+
+// needCrd records a layout requirement at a call site.
+func (it *oInterp) needCrd(fn *ssa.Function, site ssa.Instruction, what string, need, have CrdSet, name string) {
+	if need == 0 || have == 0 {
+		return // unknown height expression or value of unknown layout: no obligation
+	}
+	if it.curEq == 1 {
+		have = crdBoth // both layouts coincide on every path to this call
+	}
+	it.event(&oEvent{Kind: oevCoord, Fn: fn, In: site, What: what, Need: need, Have: have, NameA: name})
 }
 
 // reachesArrays: the value designates a tracked array, directly, through its
@@ -1495,6 +2046,30 @@ func (it *oInterp) reachesArrays(v *OV, st *OState, seen map[*oCell]bool) bool {
 		}
 	}
 	return false
+}
+
+func isPositionSlice(t types.Type) bool {
+	sl, ok := t.Underlying().(*types.Slice)
+	return ok && isUint64(sl.Elem())
+}
+
+// inPlaceTranslation: the stored value is translatePos(a[i], from, to) written
+// back to a[i] - the loop converts the whole array to the layout of `to`.
+func (it *oInterp) inPlaceTranslation(v ssa.Value, dst *ssa.IndexAddr) bool {
+	c, ok := v.(*ssa.Call)
+	if !ok {
+		return false
+	}
+	sc := c.Common().StaticCallee()
+	if sc == nil || it.calleeName(sc) != "translatePos" || len(c.Common().Args) != 3 {
+		return false
+	}
+	u, ok := c.Common().Args[0].(*ssa.UnOp)
+	if !ok {
+		return false
+	}
+	ia, ok := u.X.(*ssa.IndexAddr)
+	return ok && ia.Index == dst.Index && sameValue(ia.X, dst.X)
 }
 
 func isVarargsLiteral(v ssa.Value) bool {
